@@ -760,6 +760,68 @@ fn hand_families() -> Vec<(Vec<Decl>, Ty)> {
 	]
 }
 
+/// Const generics: a struct generic over const parameters only (and one mixing a const and a type
+/// parameter), each instantiated at two values inside one root - every instantiation must get its
+/// own fullname (the per-instantiation hash suffix), or the schema defines a name twice.
+const OPAQUE_FAMILIES: &str = r#"
+pub mod opaque_constgen {
+	use crate::runner::run_family_opaque;
+	use serde_avro_derive::BuildSchema;
+	use serde_derive::{Deserialize, Serialize};
+	#[derive(BuildSchema, Serialize, Deserialize, PartialEq, Debug, Clone)]
+	pub struct Chunk<const N: usize> {
+		#[serde(with = "serde_bytes_array")]
+		pub data: [u8; N],
+		pub n: i32,
+	}
+	mod serde_bytes_array {
+		use serde::{Deserializer, Serializer};
+		pub fn serialize<S: Serializer, const N: usize>(v: &[u8; N], s: S) -> Result<S::Ok, S::Error> {
+			s.serialize_bytes(v)
+		}
+		pub fn deserialize<'de, D: Deserializer<'de>, const N: usize>(d: D) -> Result<[u8; N], D::Error> {
+			struct V<const N: usize>;
+			impl<'de, const N: usize> serde::de::Visitor<'de> for V<N> {
+				type Value = [u8; N];
+				fn expecting(&self, f: &mut std::fmt::Formatter) -> std::fmt::Result {
+					write!(f, "{} bytes", N)
+				}
+				fn visit_bytes<E: serde::de::Error>(self, b: &[u8]) -> Result<[u8; N], E> {
+					b.try_into().map_err(|_| E::custom("wrong length"))
+				}
+			}
+			d.deserialize_bytes(V::<N>)
+		}
+	}
+	#[derive(BuildSchema, Serialize, Deserialize, PartialEq, Debug, Clone)]
+	pub struct Tagged<T, const K: usize> {
+		pub value: T,
+		pub tags: Vec<i32>,
+	}
+	#[derive(BuildSchema, Serialize, Deserialize, PartialEq, Debug, Clone)]
+	pub struct Packet {
+		pub small: Chunk<4>,
+		pub big: Chunk<16>,
+		pub again: Chunk<4>,
+		pub a: Tagged<i64, 1>,
+		pub b: Tagged<i64, 2>,
+		pub c: Tagged<String, 1>,
+	}
+	pub fn run(out: &mut Vec<String>) {
+		let v = Packet {
+			small: Chunk { data: [1, 2, 3, 4], n: 1 },
+			big: Chunk { data: [7; 16], n: 2 },
+			again: Chunk { data: [0; 4], n: -3 },
+			a: Tagged { value: 5, tags: vec![1] },
+			b: Tagged { value: -5, tags: vec![] },
+			c: Tagged { value: "x".into(), tags: vec![2, 3] },
+		};
+		run_family_opaque("constgen", &[v.clone(), v], out);
+	}
+}
+
+"#;
+
 pub fn generate_source(seed: u64, n: usize) -> String {
 	let mut rng = rng_from(seed, "derive");
 	let mut src = String::new();
@@ -809,6 +871,9 @@ pub fn generate_source(seed: u64, n: usize) -> String {
 		src.push_str(&format!("\t\t];\n\t\trun_family({:?}, &values, out);\n\t}}\n}}\n\n", prog_tokens(&decls, &module_path, &root)));
 		calls.push(format!("\tf{k}::run(out);\n"));
 	}
+	// hand-written families outside the model's program language, judged on the real code
+	src.push_str(OPAQUE_FAMILIES);
+	calls.push("\topaque_constgen::run(out);\n".into());
 	src.push_str("pub fn run_all(out: &mut Vec<String>) {\n");
 	for c in calls {
 		src.push_str(&c);
